@@ -341,6 +341,9 @@ pub enum StoreError {
     /// The path was absolute; only relative paths are allowed.
     #[error("the path must be relative")]
     PathIsAbsolute,
+    /// The path was not valid Unicode, so it cannot be referenced from a glif file.
+    #[error("the path must be valid Unicode")]
+    PathNotUnicode,
     /// The path contained something other than plain file or directory names, e.g. `..` or `.`.
     #[error("the path must consist of plain file or directory names only")]
     InvalidPathComponent,
